@@ -122,3 +122,51 @@ def table_order(prop, tier, rng):
     return {'violations': viol[:10], 'coverage': {'bounded_pipeline_checks': [
         {'what': 'tables encoded twice and in reversed / rotated insertion order', 'inputs': len(jobs),
          'failures': len(viol), 'bounded': True}]}}
+
+
+def time_zones(prop, tier, rng):
+    """C15: the same timestamp calls in child processes under different TZ settings give identical results."""
+    import datetime
+    import subprocess
+    import sys
+    zones = ['UTC', 'America/New_York', 'Asia/Kolkata', 'Pacific/Kiritimati', 'Australia/Lord_Howe', 'Europe/Berlin',
+             'America/St_Johns']
+    if tier != 'thorough':
+        zones = zones[:4]
+    prog = r'''
+import sys, time, json, datetime, calendar
+sys.path.insert(0, %r)
+time.tzset()
+from pamqp import encode, decode
+out = []
+naive = [datetime.datetime(2021, 3, 28, 2, 30), datetime.datetime(2021, 11, 7, 1, 30), datetime.datetime(1970, 1, 1),
+         datetime.datetime(2038, 1, 19, 3, 14, 8), datetime.datetime(2106, 2, 7, 6, 28, 15), datetime.datetime(2000, 6, 15, 12, 0, 0, 999999)]
+aware = [d.replace(tzinfo=datetime.timezone(datetime.timedelta(hours=h, minutes=m))) for d in naive[:4] for h, m in ((0, 0), (5, 30), (-8, 0), (14, 0))]
+structs = [time.gmtime(s) for s in (0, 1616898600, 1636263000, 2**31 - 1, 4294967295)] + \
+          [time.struct_time((2021, 3, 28, 2, 30, 0, 6, 87, isdst)) for isdst in (-1, 0, 1)]
+for v in naive + aware + structs:
+    try:
+        out.append(encode.timestamp(v).hex())
+    except Exception as exc:
+        out.append(type(exc).__name__)
+for s in (0, 1, 1616898600, 1636263000, 2**31, 4294967295, 4294967296, 1616898600123):
+    c, d = decode.timestamp(s.to_bytes(8, 'big'))
+    out.append([c, d.isoformat(), str(d.utcoffset()), d.tzinfo is datetime.timezone.utc])
+print(json.dumps(out))
+''' % replay.REPO
+    results = {}
+    for z in zones:
+        env = dict(os.environ, TZ=z)
+        p = subprocess.run([replay.VENV_PY, '-W', 'ignore', '-c', prog], capture_output=True, text=True, env=env, timeout=60)
+        results[z] = p.stdout.strip() or ('ERROR ' + p.stderr[-300:])
+    base = results[zones[0]]
+    viol = []
+    for z in zones[1:]:
+        if results[z] != base:
+            job = {'target': 'time-zone comparison', 'args': [z]}
+            viol.append(_violation(prop, 'encode.timestamp / decode.timestamp under TZ=%s' % z, job,
+                                   'identical to TZ=%s' % zones[0], {'this': results[z][:400], 'reference': base[:400]}))
+    n = len(json.loads(base)) if base.startswith('[') else 0
+    return {'violations': viol, 'coverage': {'bounded_pipeline_checks': [
+        {'what': 'timestamp codecs in child processes under TZ settings %s' % zones, 'inputs': n * len(zones),
+         'failures': len(viol), 'bounded': True}]}}
